@@ -110,7 +110,7 @@ def package_overlay(root, how, package="syne_tune"):
                 p = os.path.join(d, f)
                 with open(p, encoding="utf-8") as fh:
                     src = fh.read()
-                fn = {"reformat": reformat, "swapif": swap_if, "flipcmp": flip_cmp, "inline": inline_temps, "extract": extract_args}.get(how)
+                fn = {"reformat": reformat, "swapif": swap_if, "flipcmp": flip_cmp, "inline": inline_temps, "extract": extract_args, "nestelse": nest_else}.get(how)
                 out[os.path.relpath(p, root)] = fn(src) if fn else rewrite(src, how)
     return out
 
@@ -303,5 +303,49 @@ class _ExtractArgs(ast.NodeTransformer):
 
 def extract_args(src):
     t = _ExtractArgs().visit(ast.parse(src))
+    ast.fix_missing_locations(t)
+    return ast.unparse(t) + "\n"
+
+
+class _NestElse(ast.NodeTransformer):
+    """`if c: ...; return x` followed by more statements  ->  `if c: ...; return x  else: <the rest>` (and the reverse
+    direction for an existing else after a terminating body is NOT applied - one direction is enough to exercise rules
+    that walk statement lists)."""
+
+    @staticmethod
+    def _terminates(body):
+        return bool(body) and isinstance(body[-1], (ast.Return, ast.Raise, ast.Continue, ast.Break))
+
+    def _process(self, body):
+        out = []
+        i = 0
+        while i < len(body):
+            st = body[i]
+            for fld in ("body", "orelse", "finalbody"):
+                sub = getattr(st, fld, None)
+                if isinstance(sub, list) and sub and isinstance(sub[0], ast.stmt) and not isinstance(st, (ast.FunctionDef, ast.AsyncFunctionDef, ast.ClassDef)):
+                    setattr(st, fld, self._process(sub))
+            for h in getattr(st, "handlers", []) or []:
+                h.body = self._process(h.body)
+            rest = body[i + 1:]
+            if isinstance(st, ast.If) and not st.orelse and self._terminates(st.body) and rest \
+                    and not any(isinstance(r, (ast.FunctionDef, ast.AsyncFunctionDef, ast.ClassDef)) for r in rest):
+                st.orelse = self._process(rest)
+                out.append(st)
+                return out
+            out.append(st)
+            i += 1
+        return out
+
+    def visit_FunctionDef(self, fn):
+        self.generic_visit(fn)
+        fn.body = self._process(fn.body)
+        return fn
+
+    visit_AsyncFunctionDef = visit_FunctionDef
+
+
+def nest_else(src):
+    t = _NestElse().visit(ast.parse(src))
     ast.fix_missing_locations(t)
     return ast.unparse(t) + "\n"
